@@ -6,7 +6,7 @@ mod verif_witness {
 	use crate::core::{Candle, IndicatorConfig, IndicatorInstance, Method, ValueType};
 	use crate::helpers::MA;
 	use crate::indicators::RelativeStrengthIndex;
-	use crate::methods::{Vidya, EMA, TSI};
+	use crate::methods::{Conv, Vidya, EMA, TSI};
 
 	fn small() -> ValueType {
 		// integers in -8..=8 (exactly representable; keeps the arithmetic exact enough for a tight tolerance)
@@ -193,5 +193,23 @@ mod verif_witness {
 			assert!(z.to_bits() == y.to_bits());
 			i += 1;
 		}
+	}
+
+	// ---- C15 / C02: Conv(weights) against its definition: the oldest of the last |w| inputs meets the first weight, the newest the last one,
+	// normalised by the weight sum. Two kernels of length 3 with weight sum 4 (so the normalisation is exact), one of them ending in a zero weight;
+	// integer inputs in -8..=8, 3 steps: every product and sum is exact, so equality is exact
+	#[kani::proof]
+	#[kani::unwind(5)]
+	fn vk_conv_l3_weight_profile() {
+		let zero_tail: bool = kani::any();
+		let w: [ValueType; 3] = if zero_tail { [1.0, 3.0, 0.0] } else { [1.0, 2.0, 1.0] };
+		let x0 = small();
+		let mut m = Conv::new(w.to_vec(), &x0).unwrap();
+		let x1 = small(); let o1 = m.next(&x1);
+		assert!(o1 == (w[0] * x0 + w[1] * x0 + w[2] * x1) * 0.25);
+		let x2 = small(); let o2 = m.next(&x2);
+		assert!(o2 == (w[0] * x0 + w[1] * x1 + w[2] * x2) * 0.25);
+		let x3 = small(); let o3 = m.next(&x3);
+		assert!(o3 == (w[0] * x1 + w[1] * x2 + w[2] * x3) * 0.25);
 	}
 }
